@@ -414,6 +414,62 @@ func run(r *vk.Runner) {
 		}
 	}
 
+	// ---- (3c) Any envelopes: every type name x every value shape x both codec configurations ----
+	r.Family("any-envelopes")
+	for _, k := range []gpb.Kind{gpb.KJ5Any, gpb.KPbAny} {
+		tg := simple("any", k, gpb.Single)
+		if err := tg.s.Build(); err != nil {
+			panic(err)
+		}
+		pkg := tg.s.Package
+		// names the resolver knows as a message, does not know, or knows as something that is not a message
+		typeNames := []string{
+			`"` + pkg + `.Sub"`, `"` + pkg + `.T"`, `"` + pkg + `.Nope"`, `""`, `"."`, `".` + pkg + `.Sub"`, `"` + pkg + `.Sub."`, `"` + pkg + `"`,
+			`"` + pkg + `.Color"`, `"google.protobuf.Timestamp"`, `"google.protobuf.Any"`, `"j5.types.any.v1.Any"`,
+			`"google.protobuf.FieldDescriptorProto.Type"`, `"j5.ext.v1.field"`, `"j5.ext.v1.FieldOptions"`, `"google.protobuf"`, `"buf.validate.field"`,
+			`"type.googleapis.com/` + pkg + `.Sub"`, `null`, `1`, `{}`, `["` + pkg + `.Sub"]`,
+		}
+		vals := []string{``, `"value":{}`, `"value":null`, `"value":"x"`, `"value":[]`, `"value":1`, `"value":{"zz":1}`, `"proto":"AA=="`, `"proto":""`, `"proto":"!"`, `"proto":null`, `"value":{},"proto":"CgF4"`, `"j5Json":"e30="`}
+		for ci, opts := range [][]j5codec.CodecOption{{}, {j5codec.WithProtoToAny()}} {
+			codec := j5codec.NewCodec(append([]j5codec.CodecOption{j5codec.WithResolver(gpb.Resolver{S: tg.s})}, opts...)...)
+			for ti, tn := range typeNames {
+				for vi, v := range vals {
+					for oi, order := range []string{"type-first", "type-last", "no-type"} {
+						var doc string
+						switch order {
+						case "type-first":
+							doc = `{"!type":` + tn
+							if v != "" {
+								doc += "," + v
+							}
+							doc += "}"
+						case "type-last":
+							if v == "" {
+								continue
+							}
+							doc = `{` + v + `,"!type":` + tn + `}`
+						case "no-type":
+							if ti != 0 {
+								continue
+							}
+							doc = `{` + v + `}`
+						}
+						doc = `{"f":` + doc + `}`
+						r.Do(fmt.Sprintf("anyenv:%s:%d:%d:%d:%d", k, ci, ti, vi, oi), func(t *vk.T) {
+							t.Coord(fmt.Sprintf("json|kind=%s|any-envelope|codec=%d", k, ci))
+							t.SigCoord("json")
+							t.Nontrivial()
+							decodeJSON(t, tg.s, codec, doc)
+							if ti == 0 && vi == 1 {
+								t.Sample(doc)
+							}
+						})
+					}
+				}
+			}
+		}
+	}
+
 	// ---- (4) nesting bombs and huge scalars ----
 	r.Family("bombs")
 	rs := recSchema()
